@@ -76,6 +76,7 @@ from beartype._util.hint.utilhinttest import (
 from beartype._util.module.utilmodimport import (
     import_module_attr,
     import_module_attr_or_sentinel,
+    import_module_or_none,
 )
 from beartype._util.text.utiltextidentifier import is_dunder
 from beartype._util.utilobjget import get_object_name
@@ -1285,6 +1286,39 @@ def _resolve_hint_pep484_ref_str(
     # Although admittedly expensive, dynamic module importation and global
     # attribute lookup is the most robust and efficient means of resolving
     # stringified forward references. Ergo, this is the first phase.
+    #
+    # If this reference is a "."-delimited name (e.g., "MuhOuter.MuhInner"),
+    # first attempt to resolve this reference *RELATIVE* to this module (e.g.,
+    # as a nested type "MuhInner" of a global type "MuhOuter" defined only after
+    # the decorated callable). The absolute lookup below would otherwise
+    # erroneously treat the leading components of this name (e.g., "MuhOuter")
+    # as the fully-qualified name of an importable module and thus fail. This
+    # mirrors the relative lookup performed at decoration time, where the first
+    # component of this name is looked up in the scope of the decorated callable
+    # and all remaining components as attributes of that object.
+    if '.' in referent_basename and referent_module_name:
+        # Object to be resolved to this referent, initialized to this module.
+        referent_attr: object = import_module_or_none(referent_module_name)
+
+        # If this module is importable...
+        if referent_attr is not None:
+            # For the unqualified basename of each attribute of this name...
+            for referent_attr_basename in referent_basename.split('.'):
+                # Attribute of this basename if the prior object defines this
+                # attribute *OR* the sentinel placeholder otherwise.
+                referent_attr = getattr(
+                    referent_attr, referent_attr_basename, SENTINEL)
+
+                # If the prior object fails to define this attribute, this
+                # reference is *NOT* relative to this module. Halt!
+                if referent_attr is SENTINEL:
+                    break
+            # Else, this module transitively defines this referent. Return it.
+            else:
+                return referent_attr  # type: ignore[return-value]
+    # Else, this reference is either an unqualified basename *OR* not relative
+    # to this module.
+
     referent_hint: Hint = import_module_attr_or_sentinel(
         attr_name=referent_basename,
         module_name=referent_module_name,
